@@ -72,14 +72,26 @@ func cmdHintCases(args []string) {
 				coqZ(r.Hints.Step), coqZ(r.Hints.Range), coqStr(r.Hints.Func), u.nameList(r.Hints.Grouping), coqBool(r.Hints.By)))
 		}
 		nsel += len(obs)
-		cases = append(cases, fmt.Sprintf("  mkHC %d%%N %s %s %s %s", id, u.Expr(lp, nil), coqWindow(c.Window), coqZ(c.EffLookback()), coqList(obs)))
+		cases = append(cases, fmt.Sprintf("  mkHC %d%%N %s %s %s %s", id, u.Expr(lp, nil), coqWindow(c.Window), coqLookback(c, cfg), coqList(obs)))
 	}
 	var sb strings.Builder
-	sb.WriteString("From Coq Require Import List String ZArith NArith.\nFrom Verif Require Import Ast Base Hints CasesLib.\nImport ListNotations.\nOpen Scope string_scope.\n")
+	sb.WriteString("From Coq Require Import List String ZArith NArith.\nFrom Verif Require Import Ast Base Hints CasesLib Lookback.\nImport ListNotations.\nOpen Scope string_scope.\n")
 	sb.WriteString("Definition cases : list hint_case := [\n" + strings.Join(cases, ";\n") + "\n].\n")
 	sb.WriteString("Definition bad := Eval vm_compute in hint_mismatches cases.\nPrint bad.\n")
 	must(os.WriteFile(*out, []byte(sb.String()), 0o644))
 	fmt.Printf("{\"cases\": %d, \"selects\": %d}\n", len(cases), nsel)
+}
+
+// coqLookback: the lookback of the case's query as Lookback.v computes it from the engine's
+// configuration and the query's options (as makeQuery passes them)
+func coqLookback(c *Case, cfg EngineCfg) string {
+	opts := "None"
+	if cfg.QueryLookback != 0 {
+		opts = "(Some " + coqZ(cfg.QueryLookback.Milliseconds()) + ")"
+	} else if cfg.EmptyQueryOpts {
+		opts = "(Some 0%Z)"
+	}
+	return fmt.Sprintf("(query_lookback %s %s)", coqZ(cfg.Lookback.Milliseconds()), opts)
 }
 
 func init() { commands["hintcases"] = cmdHintCases }
